@@ -55,7 +55,7 @@ func (in *Interp) unop(ins *ssa.UnOp, x Value) Value {
 			return r
 		}
 	case token.ARROW:
-		in.unsupported("channel receive")
+		return in.recv(ins, x)
 	}
 	panic(fmt.Sprintf("unop %s on %T", ins.Op, x))
 }
@@ -829,7 +829,7 @@ func (in *Interp) rangeIter(x Value) *Iter {
 			it.vals = append([]Value(nil), x.Vals...)
 			if in.permSite >= 0 && len(it.keys) > 1 && in.curRange != nil {
 				// sites are numbered in the order of their first execution since vMapOrderSite
-				id, ok := in.rangeSites[in.curRange]
+				id, ok := in.rangeSites[ssa.Instruction(in.curRange)]
 				if !ok {
 					id = len(in.rangeSites)
 					in.rangeSites[in.curRange] = id
@@ -843,6 +843,62 @@ func (in *Interp) rangeIter(x Value) *Iter {
 		return it
 	}
 	panic(fmt.Sprintf("range over %T", x))
+}
+
+// recv: a receive in the fork-join model. Everything that was sent is queued already
+// (goroutines ran to completion when started). The values queued by DIFFERENT goroutines
+// may arrive in any order: at the site selected by vMapOrderSite (receive sites share
+// the numbering of the range-over-map sites) the not yet ordered part of the queue is
+// put in a symbolic order (Lehmer code). A goroutine that sent twice, or a receive from
+// an empty queue (it would block), is outside the model and refused.
+func (in *Interp) recv(ins *ssa.UnOp, x Value) Value {
+	ch, _ := x.(*Chan)
+	if ch == nil {
+		in.unsupported("receive from a nil channel (blocks forever)")
+	}
+	if len(ch.buf) == 0 {
+		in.unsupported("channel receive that would block (outside the fork-join model)")
+	}
+	if n := len(ch.buf) - ch.settled; n > 1 {
+		seen := map[int]bool{}
+		for _, g := range ch.senders[ch.settled:] {
+			if seen[g] {
+				in.unsupported("two values sent by one goroutine are queued (outside the fork-join model)")
+			}
+			seen[g] = true
+		}
+		in.Notes["schedule-dependent-receive-order"]++
+		if in.permSite >= 0 {
+			id, ok := in.rangeSites[ins]
+			if !ok {
+				id = len(in.rangeSites)
+				in.rangeSites[ins] = id
+			}
+			if id == in.permSite {
+				in.permInstances++
+				it := &Iter{keys: append([]Value(nil), ch.buf[ch.settled:]...), vals: make([]Value, n)}
+				for i, g := range ch.senders[ch.settled:] {
+					it.vals[i] = Sc{C: uint64(g)}
+				}
+				in.permute(it)
+				copy(ch.buf[ch.settled:], it.keys)
+				for i := range it.vals {
+					ch.senders[ch.settled+i] = int(it.vals[i].(Sc).C)
+				}
+			}
+		}
+		ch.settled = len(ch.buf)
+	}
+	v := ch.buf[0]
+	ch.buf = ch.buf[1:]
+	ch.senders = ch.senders[1:]
+	if ch.settled > 0 {
+		ch.settled--
+	}
+	if ins.CommaOk {
+		return Tuple{v, mkBool(true)}
+	}
+	return v
 }
 
 // permute orders the iteration by symbolic choices: a full symbolic permutation
